@@ -163,14 +163,47 @@ class Engine:
         self.interp.on_construct = _on_construct
         self.interp.construct_log = []
         self.R = {}             # key -> Shape
-        self.runs = {}          # (rule name, index, shape keys) -> RuleRun
+        self.consulted = False  # did a check read the rule-base results (runs / latent layer)?
+        self.incomplete = []    # idioms outside the analysed subset met while building them
+        self._runs = {}         # (rule name, index, shape keys) -> RuleRun
         self.fired = {}         # rule name -> number of non-None results
         self.feed = {}          # (producer rule, consumer rule)
-        self.latent = {}        # key -> list of (shape, PathResult list)
+        self._latent = {}       # key -> list of (shape, PathResult list)
         self.errors = []
         self._pred_cache = {}
         self.types_mod = self.model.mod("ctparse.types")
         self.rounds = 0
+
+    # the rule-base results; reading them marks the engine as consulted (core.Report
+    # withholds VIOLATED verdicts drawn from an incomplete rule-base analysis)
+    @property
+    def runs(self):
+        self.consulted = True
+        return self._runs
+
+    @runs.setter
+    def runs(self, v):
+        self._runs = v
+
+    @property
+    def latent(self):
+        self.consulted = True
+        return self._latent
+
+    @property
+    def construct_log(self):
+        """(site, where, class, attrs, calendar flag, root) for every construction met"""
+        self.consulted = True
+        return self.interp.construct_log
+
+    @property
+    def R(self):
+        self.consulted = True
+        return self._R
+
+    @R.setter
+    def R(self, v):
+        self._R = v
 
     # ------------------------------------------------------------------
     def class_v(self, name):
@@ -563,7 +596,25 @@ def ts_value():
 def get_engine(ctx):
     def build():
         e = Engine(ctx)
+        n0 = len(TopV.log)
         e.fixpoint()
         e.latent_layer()
+        seen = []
+        for ent in getattr(e.interp, "undecided_log", {}).values():
+            seen.append("{} {}: {}".format(ent[0], ent[1], ent[2]))
+        for err in e.errors:
+            seen.append("engine: " + str(err))
+        for run in e._runs.values():
+            if run.error:
+                seen.append("{}: {}".format(run.rule.name, run.error))
+        for key, (_sh, _paths, err) in e._latent.items():
+            if err:
+                seen.append("latent layer {}: {}".format(key, err))
+        if not seen:
+            for why in TopV.log[n0:]:
+                if "unknown value: " + why not in seen:
+                    seen.append("unknown value: " + why)
+        e.incomplete = seen
+        e.consulted = False
         return e
     return ctx.memo("e3", build)
